@@ -236,3 +236,47 @@ def run(ctx: Ctx):
         ctx.check(got == want, "message-union", an,
                   f"{an}: missing {sorted(show(x) for x in want - got)[:5]} extra {sorted(show(x) for x in got - want)[:5]}", P_TYPES)
     ctx.extra["disagreements_checked"] = ctx.obligations
+
+
+def _registry_not_shrunk(ctx: Ctx):
+    """The registry has to stay complete for the life of the process: no code of the package removes or rebinds
+    entries of ALL_TYPES_MAP (attrs.resolve_types only ever adds `__builtins__`)."""
+    from ..common import P_HOOKS, P_CONVERTERS
+    from ..genlint import Module, dotted
+    n = 0
+    for rel in (P_HOOKS, P_CONVERTERS, P_TYPES):
+        m = Module(rel, ctx.src.text(rel))
+        for node in ast.walk(m.tree):
+            tgt = how = None
+            if isinstance(node, ast.Delete):
+                for t_ in node.targets:
+                    if isinstance(t_, ast.Subscript):
+                        tgt, how = t_.value, "del ...[key]"
+            elif isinstance(node, ast.Call) and isinstance(node.func, ast.Attribute) and \
+                    node.func.attr in ("pop", "popitem", "clear", "__delitem__"):
+                tgt, how = node.func.value, f".{node.func.attr}()"
+            elif isinstance(node, (ast.Assign, ast.AugAssign)):
+                for t_ in (node.targets if isinstance(node, ast.Assign) else [node.target]):
+                    if isinstance(t_, ast.Subscript):
+                        tgt, how = t_.value, "...[key] = value"
+                    elif isinstance(t_, ast.Attribute) and t_.attr == "ALL_TYPES_MAP":
+                        tgt, how = t_, "rebinding"
+            if tgt is None:
+                continue
+            d = dotted(tgt) or ""
+            if d.split(".")[-1] == "ALL_TYPES_MAP":
+                n += 1
+                fn = m.enclosing_function(node)
+                ctx.fail("registry-stays-complete", f"{rel}:{getattr(fn, 'name', '<module>')}:{how}",
+                         f"{getattr(fn, 'name', 'module code')} changes ALL_TYPES_MAP ({how}): after it has run, protocol types "
+                         "are missing from / rebound in the public registry", rel, node.lineno)
+    if n == 0:
+        ctx.ok("registry-stays-complete")
+
+
+_run_c09 = run
+
+
+def run(ctx: Ctx):  # noqa: F811
+    _run_c09(ctx)
+    _registry_not_shrunk(ctx)
